@@ -410,26 +410,29 @@ def rotation_from_matrix(matrix):
     R = np.asarray(matrix, dtype=np.float64)
     R33 = R[:3, :3]
     # direction: unit eigenvector of R33 corresponding to eigenvalue of 1
+    # the distance is taken in the complex plane: for a small angle the
+    # conjugate pair cos(a) +- i sin(a) has a real part within 1e-8 of 1.0 too
     w, W = np.linalg.eig(R33.T)
-    i = np.where(abs(np.real(w) - 1.0) < 1e-8)[0]
+    i = np.where(abs(w - 1.0) < 1e-8)[0]
     if not len(i):
         raise ValueError("no unit eigenvector corresponding to eigenvalue 1")
-    direction = np.real(W[:, i[-1]]).squeeze()
+    direction = np.real(W[:, i[np.argmin(abs(w[i] - 1.0))]]).squeeze()
+    direction /= vector_norm(direction)
     # point: unit eigenvector of R33 corresponding to eigenvalue of 1
     w, Q = np.linalg.eig(R)
-    i = np.where(abs(np.real(w) - 1.0) < 1e-8)[0]
+    i = np.where(abs(w - 1.0) < 1e-8)[0]
     if not len(i):
         raise ValueError("no unit eigenvector corresponding to eigenvalue 1")
-    point = np.real(Q[:, i[-1]]).squeeze()
+    # of the candidates take the one that is a point rather than a direction
+    point = np.real(Q[:, i[np.argmax(abs(Q[3, i]))]]).squeeze()
     point /= point[3]
     # rotation angle depending on direction
     cosa = (np.trace(R33) - 1.0) / 2.0
-    if abs(direction[2]) > 1e-8:
-        sina = (R[1, 0] + (cosa - 1.0) * direction[0] * direction[1]) / direction[2]
-    elif abs(direction[1]) > 1e-8:
-        sina = (R[0, 2] + (cosa - 1.0) * direction[0] * direction[2]) / direction[1]
-    else:
-        sina = (R[2, 1] + (cosa - 1.0) * direction[1] * direction[2]) / direction[0]
+    # the skew part of a rotation matrix is sin(angle) * cross_matrix(direction)
+    sina = (
+        np.dot(direction, [R[2, 1] - R[1, 2], R[0, 2] - R[2, 0], R[1, 0] - R[0, 1]])
+        / 2.0
+    )
     angle = np.arctan2(sina, cosa)
     return angle, direction, point
 
